@@ -35,7 +35,7 @@ RTAtoms ==
   \cup {[prefixItems |-> q] : q \in {<<>>, <<IntS>>}}
   \cup {[itemsArray |-> q] : q \in {<<>>, <<IntS>>}}
   \cup {[required |-> q] : q \in {<<>>, <<"a">>}}
-  \cup {[types |-> q] : q \in {<<>>, <<"integer">>, <<"null", "string">>}}
+  \cup {[types |-> q] : q \in {<<>>, <<"integer">>, <<"null", "string">>, <<"number">>, <<"number", "null">>, <<"integer", "number">>}}
   \cup {[type |-> "number"]}
   \cup {[defs |-> m] : m \in {EmptyFcn, [x |-> IntS], [x |-> FalseS]}}
   \cup {[definitions |-> m] : m \in {EmptyFcn, [x |-> TrueS]}}
